@@ -424,7 +424,7 @@ PROPS = {
     },
     "C01": ea_entry("C01",
         "Every cell of the configuration grid (7 record types x downstream codec x 4 relay classes selecting the upstream codec x fragment size x -M x lazy/immediate) runs the real handshake and a mixed workload on the clean path (0 deviations); a pairwise-covering subset of cells runs under every single fate deviation at every datagram (1 deviation; thorough: all cells at 1, subset at 2). Every tun write on either side is compared byte-for-byte with the packets read from the peers' tuns.",
-        "Trusted: the virtual world (engine/vw.c, netsim.h) and the comparison. Payloads are fixed unique pseudo-random/compressible packets, not all contents; zlib's Adler-32 is what rejects mis-spliced fragments, so a colliding splice is outside what this decides. Fault histories with more deviations than the bound are not covered.",
+        "Trusted: the virtual world (engine/vw.c, netsim.h) and the comparison. Payloads are fixed unique pseudo-random/compressible packets, not all contents; zlib's Adler-32 is what rejects mis-spliced fragments; a colliding splice is constructed only in the stale-duplicate sub-check. Fault histories with more deviations than the bound are not covered.",
         "non-trivial = at least one packet crossed the tunnel; distinct = distinct (set and order of delivered tags per side, repeats, client alive) outcome classes", []),
     "C02": ea_entry("C02",
         "Clean path: every cell of the grid (excluding forced fragment sizes the record type cannot carry) x latency classes runs four packets per direction, offered back-to-back and spaced; the sequence of tun writes on each side must equal the sequence of packets the peer accepted (exactly once, in order), for every packet that fits in 16 fragments. Recovery: in every cell of the pairwise-covering subset a 120-byte packet is offered on each tun every second for 105 virtual seconds; each of 65 fault windows - outages (all queries / all answers / all datagrams dropped for 3..35 s at several offsets, including offsets every few milliseconds across a multi-fragment packet in either direction) and windows in which every datagram is delivered twice, repeated with a fresh DNS id, delayed by 5 s, or alternately delayed by 1.2 s (reordering), for 8 or 25 s - is followed by a clean path; neither program may have ended, and every packet offered from 45 s after the outage on must arrive exactly once, in order, within 10 s.",
@@ -568,6 +568,7 @@ PROPS["C11"]["parts"] = [
     dict(_TWO, args=["--prop", "C11"]),
 ]
 PROPS["C11"]["level_text"] += " A second part runs the succession cells of the two-client harness: a first client negotiates on a clean path and dies, and the client under test then negotiates through a case-folding relay in the slot the first one left behind; what it settled on must carry its packets."
+PROPS["C01"]["level_text"] += " A stale-duplicate sub-check uses adversarial contents: nine two-fragment upstream packets (500 ms and 5 s apart), packets 0 and 8 share the sequence number and differ in the first fragment only by an Adler-32-neutral change; the query carrying fragment 0 of packet 0 is duplicated and the copy arrives k = 2..8 packets later (NULL/TXT/CNAME x lazy/immediate x two upstream codecs): no tun write may be a packet nobody sent. For k = 8 the unchanged server does fabricate one (known finding, DESIGN.md 5.2)."
 PROPS["C01"]["level_text"] += " The grid also has IPv6-transport cells (NULL/TXT/MX/CNAME/A in DNS mode, lazy and immediate, and raw UDP mode; the server listens on both families), in the clean-path set, in the single-deviation set and for two clients."
 _cov_c18_base = PROPS["C18"]["coverage"]
 def _cov_c18(st, tier):
